@@ -232,6 +232,22 @@ theorem clone_not_eq (o u : Nat) (nm : Str) (a : Attrs) (sc : Bool) (blocks : Li
   simp [tagEq, hfresh]
   exact fun h => hfresh h.symm
 
+/-- … tag-equal to its original in both directions (`isTagEqual`: same name, same attribute names, same value
+    per name — whatever the position of `class`). -/
+theorem clone_tag_equal (o u : Nat) (nm : Str) (a : Attrs) (sc : Bool) (blocks : List DN) (ch : List Nat) (tx : Str)
+    (p ow : Option Nat) (hn : lower nm = nm) (ha : Attrs.WF a) (oid' uid' : Nat) (c : DN)
+    (e : clone oid' uid' (.el o u nm a sc blocks ch tx p ow) = some c) :
+    isTagEqual (.el o u nm a sc blocks ch tx p ow) c = true ∧ isTagEqual c (.el o u nm a sc blocks ch tx p ow) = true := by
+  rw [clone_eq o u nm a sc blocks ch tx p ow hn ha] at e
+  cases e
+  simp only [isTagEqual, Bool.and_eq_true, beq_self_eq_true, true_and, List.all_eq_true, List.contains_iff_mem,
+    Attrs.getForEq_fresh a ha, Attrs.GVal.eq_refl, implies_true, and_true]
+  refine ⟨⟨fun k hk => ?_, fun k hk => ?_⟩, ⟨fun k hk => ?_, fun k hk => ?_⟩⟩
+  · exact (Attrs.mem_keys_handle_fresh a ha k).mpr hk
+  · exact (Attrs.mem_keys_handle_fresh a ha k).mp hk
+  · exact (Attrs.mem_keys_handle_fresh a ha k).mp hk
+  · exact (Attrs.mem_keys_handle_fresh a ha k).mpr hk
+
 /-- … and renders the same start tag (name and attributes) whenever the original's `class` is in its
     canonical last position — always, up to the order of attributes (`clone_tag_equal`). -/
 theorem clone_same_start_tag (nm : Str) (a : Attrs) (sc : Bool) (ha : Attrs.WF a) (hl : Attrs.ClassLast a) :
